@@ -370,9 +370,17 @@ func doReplay(p *props.Property, path string) int {
 	}
 	h := fmt.Sprintf("%016x", o.Hash)
 	fmt.Printf("REPLAY-VIOLATION class=%s fingerprint=%s detail=%s\n", o.Violation.Class, h, o.Violation.Detail)
-	if ff.Class != "" && (o.Violation.Class != ff.Class || (ff.Hash != "" && ff.Hash != h)) {
+	if ff.Class != "" && o.Violation.Class != ff.Class {
 		fmt.Printf("REPLAY-MISMATCH recorded class=%s fingerprint=%s\n", ff.Class, ff.Hash)
 		return 4
+	}
+	if ff.Hash != "" && ff.Hash != h {
+		// Same violation, different event log: the code under test contains a
+		// source of nondeterminism the simulator does not own (for instance a
+		// map range or a pool that the overlay does not reach). The violation is
+		// real - it happened again in this fresh process - but the replay is
+		// only "same class", not "same run".
+		fmt.Printf("REPLAY-INEXACT recorded fingerprint=%s: same violation class, different event log (nondeterminism outside the simulator's seams)\n", ff.Hash)
 	}
 	return 1
 }
